@@ -17,6 +17,7 @@ Exit codes: 0 held (KNOWN-FINDING lines allowed) / 1 VIOLATION / 2 harness failu
 from __future__ import annotations
 
 import faulthandler
+import locale
 import hashlib
 import importlib
 import json
@@ -166,6 +167,7 @@ def cmd_shard(prop: str, tier: str, verif_seed: int, shard: int, out: str) -> in
             t_run = time.time()  # measured outside the run; reported only, never logged into a digest
             res = execute_isolated(mod, program)
             rec = {
+                "env": f"PYTHONHASHSEED={os.environ.get('PYTHONHASHSEED')} text-encoding={locale.getencoding()}",
                 "wall_ms": int((time.time() - t_run) * 1000),
                 "i": i,
                 "seed": seed,
@@ -465,6 +467,7 @@ def parent(prop: str, tier: str, verif_seed: int) -> int:
         faults, probes, states = {}, {}, set()
         nontrivial_digests = set()
         configs = {}
+        envs: dict = {}
         steps_total = 0
         samples = []
         slowest = max(recs, key=lambda r: r.get("wall_ms", 0)) if recs else {}
@@ -478,6 +481,7 @@ def parent(prop: str, tier: str, verif_seed: int) -> int:
             if r.get("nontrivial") and r.get("digest"):
                 nontrivial_digests.add(r["digest"])
             configs[r.get("config", "fault_free")] = configs.get(r.get("config", "fault_free"), 0) + 1
+            envs[r.get("env", "?")] = envs.get(r.get("env", "?"), 0) + 1
             steps_total += r.get("steps", 0)
             if "sample" in r and len(samples) < 3:
                 samples.append(r["sample"])
@@ -503,6 +507,7 @@ def parent(prop: str, tier: str, verif_seed: int) -> int:
                 "distinct_states": len(states),
                 "distinct_states_measure": getattr(mod, "STATE_MEASURE", "distinct abstract states recorded by the runs"),
                 "configs": configs,
+                "process_environments": dict(sorted(envs.items())),
                 "components": mod.COMPONENTS,
                 "simulated_time": "not applicable - no clock is read by any claimed property; logical steps are counted instead",
                 "violating_runs": n_viol,
